@@ -125,7 +125,8 @@ def run_program(env, n, prog, mode_type=None):
     import lightworks as lw
     c = lw.Circuit(n)
     ref = []
-    M = {None: (lambda x: x), "np": (lambda x: real_np.int64(x)), "float": (lambda x: float(x))}[mode_type]
+    M = {None: (lambda x: x), "np": (lambda x: real_np.int64(x)), "float": (lambda x: float(x)), "f32": (lambda x: real_np.float32(x)),
+         "npbool": (lambda x: real_np.bool_(x) if x in (0, 1) else x)}[mode_type]
     prog0 = prog
     prog = [tuple((M(x) if (isinstance(x, int) and not isinstance(x, bool) and k_ in (1, 2) and not (cp[0] == "um" and k_ == 2)) else
                    ([(M(a), M(b)) for a, b in x] if cp[0] == "swaps" and k_ == 1 else x)) for k_, x in enumerate(cp)) for cp in prog] if mode_type else prog
@@ -332,7 +333,7 @@ def _one(mode, n, prog, label, assignment):
     check_program(env, n, prog, label)
     # the same program with its mode numbers given as numpy integers / integral floats: whatever the API accepts must compile to the same matrix
     if sum(map(ord, label)) % 7 == 0:
-        for mt in ("np", "float"):
+        for mt in ("np", "float", "f32", "npbool"):
             check_program(env, n, prog, f"{label};modes-as-{mt}", mt)
     return env.obligations
 
